@@ -235,6 +235,21 @@ CLAIMS['C16'] = (
     'listed; pthread/system includes need package() (mopack is broken in the image)',
     'DESIGN.md §6 C16')
 
+CLAIMS['C14'] = (
+    'exploration',
+    'exhaustive enumeration of library DAGs (<=2/3 libraries, 4 kinds, all direct-dependency edge sets) x output directories x listing order x library modes x language mixes, built with the real gcc/g++/ar/ld and executed',
+    'Every DAG of n <= 2 (quick) / 3 (thorough) libraries plus one executable is generated: kind per library in '
+    '{static, shared, dual-use library(), whole-archive}, every edge set in which a library declares only its direct '
+    'dependencies, the executable depending on every non-empty subset, at most one library carrying a requirement that '
+    'only the final link can satisfy (a link option: calls resolve only under -Wl,--wrap; a library: -lm via '
+    'opts.lib), output directories in different nested sub-directories, reversed libs= order, the four '
+    '--enable/--disable-shared/static combinations (library() with both disabled must be rejected) and C/C++ mixes. '
+    'Each project is built by the real toolchain through make; every executable is run with an empty environment '
+    'before and after the build directory (whose name contains a space) is renamed and must print the value the '
+    'model computes; readelf -d of every linked ELF must show only $ORIGIN-relative run paths and bare NEEDED/SONAME.',
+    'forwarded packages need mopack (broken in this image); n = 3 restricted as stated in the evidence',
+    'DESIGN.md §6 C14')
+
 # --- more claims are appended above this line ---
 NOT_YET = 'check not built yet in this session (see DESIGN.md §10 build order); not claimed until it is'
 NOT_APPLICABLE = {}
